@@ -999,3 +999,90 @@ B("C03-skip-hash-of-clear", "C03", "C03:R-C03.2:<journal::batch_reader::JournalB
 """,
   """                    fail_iter!(entry.encode_into(&mut bytes));
 """)
+
+# ======================================================================== C08
+TXW = "src/tx/write_tx.rs"
+B("C08-range-no-overlay", "C08", "C08:R-C08.1:<tx::write_tx::BaseTransaction as readable::Readable>::range", TXW,
+  """        let iter = keyspace.tree.range(
+            range,
+            self.nonce.instant,
+            self.memtables
+                .get(keyspace)
+                .cloned()
+                .map(|mt| (mt, self.seqno)),
+        );""",
+  """        let iter = keyspace.tree.range(range, self.nonce.instant, None);""")
+B("C08-get-ignores-own-tombstone", "C08", "C08:R-C08.1:<tx::write_tx::BaseTransaction as readable::Readable>::get:own-write-shadows", TXW,
+  """            if let Some(item) = memtable.get(key, SeqNo::MAX) {
+                return Ok(ignore_tombstone_value(item).map(|x| x.value));
+            }""",
+  """            if let Some(item) = memtable.get(key, SeqNo::MAX) {
+                if let Some(v) = ignore_tombstone_value(item) {
+                    return Ok(Some(v.value));
+                }
+            }""")
+B("C08-seqno-low", "C08", "C08:R-C08.2:tx::write_tx::BaseTransaction::new", TXW,
+  "seqno: 0x8000_0000_0000_0000,", "seqno: 0x0000_0000_8000_0000,")
+B("C08-remove-no-increment", "C08", "C08:R-C08.2:tx::write_tx::BaseTransaction::remove:one-increment", TXW,
+  """            .insert(lsm_tree::InternalValue::new_tombstone(key, self.seqno));
+
+        self.seqno += 1;""",
+  """            .insert(lsm_tree::InternalValue::new_tombstone(key, self.seqno));""")
+B("C08-insert-writes-through", "C08", "C08:R-C08.3:tx::write_tx::BaseTransaction::remove_weak", TXW,
+  """            .insert(lsm_tree::InternalValue::new_weak_tombstone(key, self.seqno));
+
+        self.seqno += 1;""",
+  """            .insert(lsm_tree::InternalValue::new_weak_tombstone(key, self.seqno));
+        let _ = keyspace.tree.remove_weak("", 0);
+
+        self.seqno += 1;""")
+B("C08-commit-no-dedupe", "C08", "C08:R-C08.4:tx::write_tx::BaseTransaction::commit:dedupe", TXW,
+  """                if let Some(prev_key) = &prev_key {
+                    if item.key.user_key == prev_key {
+                        continue;
+                    }
+                }
+""",
+  """                if let Some(prev_key) = &prev_key {
+                    if item.key.user_key == prev_key && item.key.user_key.is_empty() {
+                        continue;
+                    }
+                }
+""")
+B("C08-snapshot-before-mutex", "C08", "C08:R-C08.5:tx::single_writer::TxDatabase::write_tx:lock-before-snapshot", "src/tx/single_writer/mod.rs",
+  """        let guard = self.single_writer_lock.lock().expect("poisoned tx lock");
+
+        let mut write_tx = WriteTransaction::new(
+            self.clone(),
+            self.inner.supervisor.snapshot_tracker.open(),
+            guard,
+        );""",
+  """        let nonce = self.inner.supervisor.snapshot_tracker.open();
+        let guard = self.single_writer_lock.lock().expect("poisoned tx lock");
+
+        let mut write_tx = WriteTransaction::new(self.clone(), nonce, guard);""")
+B("C08-guard-dropped-before-commit", "C08", "C08:R-C08.5:tx::single_writer::write_tx::WriteTransaction::<'tx>::commit", "src/tx/single_writer/write_tx.rs",
+  """    pub fn commit(self) -> crate::Result<()> {
+        self.inner.commit()
+    }""",
+  """    pub fn commit(self) -> crate::Result<()> {
+        drop(self._guard);
+        self.inner.commit()
+    }""")
+B("C08-update_fetch-returns-prev", "C08", "C08:R-C08.6:tx::write_tx::BaseTransaction::update_fetch", TXW,
+  """        } else if prev.is_some() {
+            self.remove(keyspace, key);
+        }
+
+        Ok(updated)""",
+  """        } else if prev.is_some() {
+            self.remove(keyspace, key);
+        }
+
+        Ok(prev)""")
+B("C08-sw-helper-direct", "C08", "C08:R-C08.5:tx::single_writer::keyspace::SingleWriterTxKeyspace::insert", "src/tx/single_writer/keyspace.rs",
+  """        let mut tx = self.db.write_tx();
+        tx.insert(self, key, value);
+        tx.commit()?;
+        Ok(())""",
+  """        self.inner.insert(key, value)""")
